@@ -11,6 +11,8 @@
 #include <map>
 #include <set>
 #include <unistd.h>
+#include <atomic>
+#include <thread>
 
 namespace eg {
 Obs g_obs;
@@ -63,6 +65,7 @@ static bool deadline_hit = false;
 // current case, for the crash handler
 static const FrameBase* cur_frame = nullptr; static Gram cur_gram; static std::string cur_input; static const char* cur_phase = "";
 
+static std::atomic<unsigned long> g_heartbeat{0};
 static double elapsed() { return std::chrono::duration<double>(std::chrono::steady_clock::now() - t0).count(); }
 
 static std::string spec_of(const Gram& g);
@@ -495,7 +498,7 @@ static void explore_strings(FrameBase& f, const Gram& g, const ref::LR1& L, Ctx&
     const int nwords = cfg.has_input ? 1 : sp.count;
     for (int id = 0; id < nwords; ++id) {
         const std::string& w = cfg.has_input ? cfg.one_input : sp.str[id];
-        cur_input = w; cur_phase = "strings";
+        cur_input = w; cur_phase = "strings"; ++g_heartbeat;
         std::vector<ref::Tok> toks = tokens_of(w);
         ref::Run ex = ref::drive(g, rt, toks, 400);
         if (ex.undefined || ex.horizon) { ctr["ref_no_verdict"]++; continue; }
@@ -640,7 +643,7 @@ static void explore_rich(FrameBase& f, const Gram& g, const ref::LR1& L) {
     ref::RefTable rt{L}; const bool reduced_gram = ref::is_reduced(g);
     for (const std::string& w : rich_words(g.T, cfg.maxlen)) {
         if (cfg.has_input && w != cfg.one_input) continue;
-        cur_input = w; cur_phase = "rich-strings";
+        cur_input = w; cur_phase = "rich-strings"; ++g_heartbeat;
         std::vector<ref::Tok> toks; std::vector<std::pair<int, int>> pos; bool lexfail = false; int fail_off = -1; int line = 1, col = 1; std::pair<int, int> failpos{0, 0};
         for (size_t i = 0; i < w.size(); ++i) {
             char c = w[i];
@@ -691,7 +694,7 @@ static void explore_custom(FrameBase& f, const Gram& g, const ref::LR1& L) {
         if (cfg.has_input && w != cfg.one_input) continue;
         std::vector<int> prefix;
         while (true) {
-            cur_input = w; cur_phase = "custom-lexer";
+            cur_input = w; cur_phase = "custom-lexer"; ++g_heartbeat;
             g_script.begin(g.T, w.data(), w.size(), prefix);
             ParseObs ro = f.parse(w.data(), w.size(), PM_OSTREAM);
             ctr["parses"]++; ctr["C18.evals"]++; ++scripts_here;
@@ -741,7 +744,7 @@ static void explore_custom(FrameBase& f, const Gram& g, const ref::LR1& L) {
 }
 
 static void explore(FrameBase& f, const Gram& g) {
-    cur_frame = &f; cur_gram = g; cur_input.clear(); cur_phase = "analysis";
+    cur_frame = &f; cur_gram = g; cur_input.clear(); cur_phase = "analysis"; ++g_heartbeat;
     ctr["grammars"]++;
     Ctx& cx = ctx_for(g.T);
     ref::Analysis an = ref::analyse(g);
@@ -880,7 +883,7 @@ static void crash_handler(int sig) {
         std::ofstream o(cfg.out + ".crash");
         o << jw::Obj().i("signal", sig).s("phase", cur_phase).s("frame", cur_frame ? cur_frame->name : "").s("gram", cur_gram.text()).s("spec", spec_of(cur_gram)).i("nt", cur_gram.NT).i("t", cur_gram.T).s("prec", prec_spec(cur_gram)).s("rprec", rprec_spec(cur_gram)).s("input", cur_input).str() << "\n";
     }
-    _exit(3);
+    _exit(sig == 0 ? 4 : 3);
 }
 
 static void write_out() {
@@ -934,6 +937,8 @@ int main(int argc, char** argv) {
         else { std::fprintf(stderr, "unknown argument %s\n", a.c_str()); return 2; }
     }
     std::signal(SIGSEGV, crash_handler); std::signal(SIGABRT, crash_handler); std::signal(SIGBUS, crash_handler); std::signal(SIGFPE, crash_handler);
+    // watchdog: every real call is expected to return within milliseconds; a case that makes no progress for 20 s is a hang of the real code
+    std::thread([] { unsigned long last = g_heartbeat; int idle = 0; while (true) { sleep(1); unsigned long now = g_heartbeat; if (now == last && cur_frame) { if (++idle >= 20) crash_handler(0); } else { idle = 0; last = now; } } }).detach();
 
     auto find_frame = [&](const Gram& g) -> FrameBase* {
         for (auto* f : registry()) {
